@@ -8,7 +8,7 @@ EXTENDS Transform, TransformWorld, Json, IOUtils
 Rows == JsonDeserialize(IOEnv.VF_IN)
 WantOf(j) == [pre |-> Rng(j.pre), post |-> Rng(j.post), preinv |-> Rng(j.preinv), postinv |-> Rng(j.postinv),
               gitinv |-> Rng(j.gitinv), n |-> j.n]
-Obs(j)    == [disk |-> Rng(j.disk), ver |-> Rng(j.ver), left |-> j.left, phase |-> j.phase]
+Obs(j)    == [disk |-> Rng(j.disk), ver |-> Rng(j.ver), left |-> j.left, reusable |-> j.reusable, phase |-> j.phase]
 Judge(r)  == LET w == WantOf(r.w)  o == Obs(r.obs) IN
     [failed |-> SetToSeq(Failed(w, r.fl, o)), shape |-> Shape(w, r.fl, o), drift |-> SetToSeq(Drift(w, r.fl, r.k, o, r.obs.nops))]
 Bad == SelectSeq([i \in 1..Len(Rows) |-> [row |-> i] @@ Judge(Rows[i])], LAMBDA x : x.failed # <<>> \/ x.drift # <<>>)
